@@ -85,9 +85,14 @@ func busy(stack string) bool {
 	if strings.Contains(stack, "hx.Stacks(") {
 		return false
 	}
-	// a callback held open by the controller is at rest
+	// a callback held open by the controller is at rest as long as it is parked on its
+	// gate (closing the gate makes it runnable before release() returns)
 	if strings.Contains(stack, "c12x.(*gates).wait(") {
-		return false
+		head := stack
+		if nl := strings.IndexByte(stack, '\n'); nl >= 0 {
+			head = stack[:nl]
+		}
+		return !strings.Contains(head, "[chan receive")
 	}
 	if !strings.Contains(stack, "go-zero/core/collection") &&
 		!strings.Contains(stack, "go-zero/core/threading") &&
